@@ -68,8 +68,7 @@ REQUIRED_MONITORS = [
     "enforce-constrained-rows-exact", "enforce-kept-rows-untouched", "enforce-rhs-exact",
     "enforce-same-solution", "enforce-same-solution-as-condense", "enforce-mass-rows",
     "enforce-pencil-eigenvalues",
-    "penalize-structure", "penalize-rhs", "penalize-agrees-up-to-epsilon", "penalize-mass-untouched",
-    "penalize-pencil-eigenvalues",
+    "penalize-only-constrained-entries-change", "penalize-agrees-up-to-epsilon", "penalize-pencil-eigenvalues",
     "mpc-index-layout", "mpc-reduced-system", "mpc-constraint", "mpc-kept-equations",
     "spellings-agree", "view-spelling-equals-array-spelling",
     "no-argument-modified", "readonly-pass-agrees", "overwrite-result-correct",
@@ -679,6 +678,11 @@ def check_enforce(ctx, A, b, x, split, ref, tag, diag=None, overwrite=False, y_c
 
 # ------------------------------------------------------------------ penalize
 def check_penalize(ctx, A, b, x, split, ref, tag, epsilon=None, overwrite=False):
+    """The statement only says that the penalised system *agrees up to its penalty parameter*: the verdict is
+    taken on the solution (vector rhs) / the bounded eigenvalues (matrix rhs) of whatever system is returned.
+    The only structural demand is the one that makes it a penalty method at all: nothing but the constrained
+    diagonal entries and the constrained right-hand side entries changes.  Whether the penalty replaces the
+    diagonal or is added to it, and its value, are left to the library (recorded as notes)."""
     from skfem.utils import penalize
     A_in, b_in = (A.copy(), None if b is None else b.copy()) if overwrite else (A, b)
     w = Watch(A=A_in, b=b_in, x=x, idx=split.obj)
@@ -699,75 +703,70 @@ def check_penalize(ctx, A, b, x, split, ref, tag, epsilon=None, overwrite=False)
     pen = Apd[D, D]
     mask = np.ones((n, n), dtype=bool)
     mask[D, D] = False
-    untouched = same(Apd[mask], ref.Ad[mask])
-    name = "overwrite-result-correct" if overwrite else "penalize-structure"
+    name = "overwrite-result-correct" if overwrite else "penalize-only-constrained-entries-change"
+    ctx.check(name, same(Apd[mask], ref.Ad[mask]), mech="penalize:touches-other-entries", **tag)
+    if D.size == 0:
+        return out
+    P = float(np.abs(pen).min())
+    if not np.isfinite(P) or P == 0 or not np.isfinite(np.abs(pen).max()):
+        # default epsilon = 1e-10 / max|diag[D]|: infinite when every constrained diagonal entry is zero
+        ctx.drop("penalize:penalty-parameter-degenerate(all constrained diagonal entries are zero, epsilon=None)"
+                 if epsilon is None else "penalize:penalty-parameter-degenerate(explicit epsilon)")
+        ctx.reached("penalize:default-epsilon-degenerate")
+        return out
     if epsilon is not None:
-        P = 1.0 / epsilon
-        ctx.check(name, untouched and same(pen, np.full(D.size, P)), mech="penalize:structure",
-                  pen=lambda: pen[:8], P=P, **tag)
-    else:
-        # the default penalty is whatever the library chose, but it must be one common finite value
-        P = pen[0] if D.size else None
-        if D.size and (not np.isfinite(P) or P == 0):
-            ctx.drop("penalize:default-epsilon-degenerate(all constrained diagonal entries are zero)")
-            ctx.reached("penalize:default-epsilon-degenerate")
-            ctx.check(name, untouched, mech="penalize:structure", **tag)
-            return None
-        ctx.check(name, untouched and (D.size == 0 or same(pen, np.full(D.size, P))), mech="penalize:structure",
-                  pen=lambda: pen[:8], **tag)
+        ctx.reached("note:penalty-equals-1/epsilon-exactly" if same(pen, np.full(D.size, 1.0 / epsilon))
+                    else "note:penalty-differs-from-1/epsilon")
     rhs_kind = "none"
     if ref.Md is not None:
         rhs_kind = "matrix"
         Mpd = np.asarray(bp.toarray())
-        ctx.check("penalize-mass-untouched", same(Mpd, ref.Md), mech="penalize:mass", **tag)
         # (oracle pitfall: the dense eigensolver itself loses ~1e-16*P/|A| relative accuracy, so the
         # clause is evaluated only for 1e6 <= P/|A| <= 1e11, where a 1e-3 tolerance separates the
         # O(|A|/P) penalty error and the rounding of the model from any real disagreement)
-        if ref.sym and I.size and D.size and ref.cond <= CONDMAX and epsilon is not None and ref.amax > 0 and \
-                1e6 * ref.amax <= abs(P) <= 1e11 * ref.amax:
+        if ref.sym and I.size and ref.cond <= CONDMAX and ref.amax > 0 and 1e6 * ref.amax <= P <= 1e11 * ref.amax:
             wc = np.sort(sl.eigh(ref.AII, ref.Md[np.ix_(I, I)], eigvals_only=True))
-            try:
-                wp = np.sort(sl.eigh(Apd, Mpd, eigvals_only=True))
-            except Exception:
-                wp = None
-            if wp is not None:
-                sc = max(float(np.abs(wc).max()), 1e-300)
-                # eigenvalues that stay bounded as P grows converge to the constrained ones at rate O(1/P)
-                near = wp[np.abs(wp) < 1e-3 * abs(P)]
-                good = near.size == wc.size and bool(np.abs(near - wc).max() <= 1e-3 * sc)
-                ctx.check("penalize-pencil-eigenvalues", good, mech="penalize:pencil", bounded=int(near.size),
-                          expected=int(wc.size), **tag)
+            wp = finite_pencil_eigs(Apd, Mpd)
+            sc = max(float(np.abs(wc).max()), 1e-300)
+            # eigenvalues that stay bounded as P grows converge to the constrained ones at rate O(1/P)
+            near = np.sort(wp[np.abs(wp) < 1e-3 * P].real)
+            good = near.size == wc.size and bool(np.abs(near - wc).max() <= 1e-3 * sc)
+            ctx.check("overwrite-result-correct" if overwrite else "penalize-pencil-eigenvalues", good,
+                      mech="penalize:pencil", bounded=int(near.size), expected=int(wc.size), P=P, **tag)
+            if good:
+                nt(ctx, "penalize", A, split, ref, rhs_kind, overwrite)
     elif ref.b is not None:
         rhs_kind = "vector"
         bp = np.asarray(bp)
         okb = bp.shape == (n,) and same(bp[I], ref.b[I])
-        ctx.check("overwrite-result-correct" if overwrite else "penalize-rhs", okb, mech="penalize:rhs-kept", **tag)
-        if D.size and okb:
-            ctx.close("overwrite-result-correct" if overwrite else "penalize-rhs", bp[D], ref.xfull[D] * P,
-                      rtol=4e-16, scale=float(np.abs(ref.xfull[D] * P).max()), mech="penalize:rhs-constrained", **tag)
-        if ref.y is not None and okb and D.size and I.size >= 0:
-            # solve the penalised system with the constrained rows rescaled by 1/P (well conditioned)
+        ctx.check(name, okb, mech="penalize:touches-kept-rhs", **tag)
+        if ref.y is not None and okb:
+            # solve the penalised system with each constrained row rescaled by its own penalty (well conditioned)
             S = Apd.astype(np.result_type(Apd.dtype, np.float64)).copy()
             r = bp.astype(np.result_type(bp.dtype, S.dtype)).copy()
-            S[D] = S[D] / P
-            r[D] = r[D] / P
+            S[D] = S[D] / pen[:, None]
+            r[D] = r[D] / pen
             try:
                 yp = np.linalg.solve(S, r)
             except np.linalg.LinAlgError:
                 ctx.drop("penalised-system-singular")
                 return out
-            offD = np.abs(ref.Ad[D]).sum(1) - np.abs(ref.Ad[D, D])
-            delta = float(offD.max()) * float(np.abs(yp).max()) / abs(P)
+            rowsD = np.abs(ref.Ad[D]).sum(1)
+            big = max(float(np.abs(yp).max()), float(np.abs(ref.xfull[D]).max()))
+            delta = float(rowsD.max()) * big / P
             amp = 1.0
             if I.size:
                 amp = max(1.0, float(np.abs(np.linalg.solve(ref.AII, ref.AID)).sum(1).max()))
             ysc = max(float(np.abs(ref.y).max()), 1e-300)
             tol = 2 * amp * delta + 1e-10 * max(1.0, ref.cond) * ysc
             err = float(np.abs(yp - ref.y).max())
-            ctx.check("penalize-agrees-up-to-epsilon", np.isfinite(err) and err <= tol, mech="penalize:solution",
-                      err=err, tol=tol, P=repr(P), **tag)
+            ctx.check("overwrite-result-correct" if overwrite else "penalize-agrees-up-to-epsilon",
+                      np.isfinite(err) and err <= tol, mech="penalize:solution", err=err, tol=tol, P=P,
+                      epsilon=epsilon, **tag)
             if amp * delta <= 1e-4 * ysc:
                 nt(ctx, "penalize", A, split, ref, rhs_kind, overwrite)
+            else:
+                ctx.reached("note:penalty-bound-not-sharp(C/P>1e-4|y|)")
     return out
 
 
@@ -843,10 +842,14 @@ def run_linear_ops(ctx, A, b, x, splits, tag, rot=0, sym=False):
                            y_condense=y if isinstance(y, np.ndarray) else None)
         readonly_pass(ctx, "enforce", A, b, x, split, t, e1, **({"diag": diag} if diag is not None else {}))
         check_enforce(ctx, A, b, x, split, ref, t, diag=[None, 0.5][r % 2], overwrite=True)
-        eps = [None, 2.0 ** -34, None, 2.0 ** -40][r % 4]
+        if sp.issparse(b) and ref.amax > 0:
+            e0 = 2.0 ** -int(np.round(np.log2(1e8 * ref.amax)))      # keeps the dense pencil model accurate
+            eps, eps2 = [e0, None, e0 / 8, e0 * 8][r % 4], [e0, e0 / 4][r % 2]
+        else:
+            eps, eps2 = [None, 2.0 ** -34, None, 2.0 ** -40][r % 4], [2.0 ** -36, None][r % 2]
         p1 = check_penalize(ctx, A, b, x, split, ref, t, epsilon=eps, overwrite=False)
         readonly_pass(ctx, "penalize", A, b, x, split, t, p1, **({"epsilon": eps} if eps is not None else {}))
-        check_penalize(ctx, A, b, x, split, ref, t, epsilon=[2.0 ** -36, None][r % 2], overwrite=True)
+        check_penalize(ctx, A, b, x, split, ref, t, epsilon=eps2, overwrite=True)
         from skfem.utils import condense
         readonly_pass(ctx, "condense", A, b, x, split, t, condense(A, b, x=x, **split.kw))
         ys.append((split, ref, y))
